@@ -678,11 +678,17 @@ class SimWorld:
             kw.update(ck or {})
             self.clients.append(clients.SimulatedClient(**kw))
         fw = self.framework = FlumineSimulation(client=self.clients[0])
+        world = self
+        if getattr(self, "early_user_middleware", False):
+            # a user middleware registered before further clients are added (set-up order must not matter)
+            class Early(Middleware):
+                pass
+
+            fw.add_market_middleware(Early())
         for c in self.clients[1:]:
             fw.add_client(c)
         self.recorder = Recorder(self)
         fw.add_logging_control(self.recorder)
-        world = self
 
         if self.observe_mw:
 
